@@ -219,6 +219,12 @@ Proof. unfold unnamed_step. rel1_tac. Qed.
 #[global] Hint Resolve rel1_unnamed_step : rel.
 Lemma rel1_via_union {Sc n key leaf} : (forall n', rel1 (leaf n')) -> rel1 (via_union Sc n key leaf).
 Proof. intro H. unfold via_union. destruct n; auto. rel1_tac; auto. Qed.
+Lemma rel1_unit_variant_null Sc n variant m : rel1 m -> rel1 (unit_variant_null Sc n variant m).
+Proof.
+  intro H. unfold unit_variant_null. destruct n; auto.
+  destruct (union_named Sc variants variant) as [[d k']|]; auto.
+  destruct (fnode_at Sc k') as [[]|]; auto. apply rel1_write_varint.
+Qed.
 Lemma rel1_named_step Sc n nm : rel1 (named_step Sc n nm).
 Proof. unfold named_step. rel1_tac. Qed.
 #[global] Hint Resolve rel1_named_step : rel.
@@ -1021,7 +1027,7 @@ Proof. intro H. unfold at_key. destruct (fnode_at Sc k); auto. apply rel1_fail; 
 Theorem ser_rel Sc : forall v n, rel1 (ser Sc n v).
 Proof.
   induction v using sval_ind2; intro n0;
-    try (cbn [ser]; repeat (apply rel1_via_union; intro); rel1_tac; fail).
+    try (cbn [ser]; try apply rel1_unit_variant_null; repeat (apply rel1_via_union; intro); rel1_tac; fail).
   - rewrite ser_SSeq. apply rel1_via_union; intro. apply rel_seq_leaf.
     eapply Forall_impl; [|exact H]. intros v Hv k. now apply rel1_at_key.
   - rewrite ser_STuple. apply rel1_via_union; intro. apply rel_seq_leaf.
@@ -1240,6 +1246,12 @@ Proof. unfold unnamed_step. np1_tac. Qed.
 Lemma np1_via_union {strict Sc n key leaf} :
   (forall n', np1 strict (leaf n')) -> np1 strict (via_union Sc n key leaf).
 Proof. intro H. unfold via_union. destruct n; auto. np1_tac; auto. Qed.
+Lemma np1_unit_variant_null strict Sc n variant m : np1 strict m -> np1 strict (unit_variant_null Sc n variant m).
+Proof.
+  intro H. unfold unit_variant_null. destruct n; auto.
+  destruct (union_named Sc variants variant) as [[d k']|]; auto.
+  destruct (fnode_at Sc k') as [[]|]; auto. apply np1_write_varint.
+Qed.
 Lemma np1_named_step strict Sc n nm : np1 strict (named_step Sc n nm).
 Proof. unfold named_step. np1_tac. Qed.
 #[global] Hint Resolve np1_named_step : np.
@@ -1641,7 +1653,7 @@ Qed.
 Theorem ser_np Sc : forall v, NP Sc v.
 Proof.
   induction v using sval_ind2; intros strict Hwf n0;
-    try (cbn [ser]; repeat (apply np1_via_union; intro); np1_tac; fail).
+    try (cbn [ser]; try apply np1_unit_variant_null; repeat (apply np1_via_union; intro); np1_tac; fail).
   - rewrite ser_SSeq. apply np1_via_union; intro. apply np_seq_leaf. now apply NP_list.
   - rewrite ser_STuple. apply np1_via_union; intro. apply np_seq_leaf. now apply NP_list.
   - rewrite ser_STupleStruct. apply np1_via_union; intro. apply np_seq_leaf. now apply NP_list.
